@@ -189,10 +189,13 @@ def main(tier: str) -> int:
                 "whole lists, reversed lists, singletons); every N<=4(5), every injective dims / "
                 "exclude_dims list in any order with M in {none, |dims|, N}; all pairs of row matrices "
                 "with <=3 rows over {0,1}^2 and {0,1,2}^1 for the four row-set helpers; all tuples of "
-                "<=3 labelled matrices with 1..3 rows and 1..2 columns, both orders")
+                "<=3 labelled matrices with 1..3 rows and 1..2 columns, both orders; searches of 1030 and 2500 rows in short "
+                "sources (and a short search in a long source); sub2ind / ind2sub on power-of-two shapes with 2^54..2^62 "
+                "cells, subscripts as bit strings (IndexMaps_Bits: 7 bit patterns per shape pair)")
     out.exhaustive = True
     out.trusted = ["harness/c17.py call(): plain calls of the helper functions", "TLC"]
-    out.assumptions = ["small scope: shapes with order <= 4 (5) and sizes <= 3, row matrices with <= 3 rows"]
+    out.assumptions = ["small scope: shapes with order <= 4 (5) and sizes <= 3, row matrices with <= 3 rows (plus the long and "
+                       "the 2^k instances named in the rule)"]
     return core.finish(out)
 
 
